@@ -180,6 +180,8 @@ PROPS["C02"]["theorems"] = [
 
 # ---------------------------------------------------------------- C20
 def c20_classify(rq, impl):
+    if rq.startswith("U20 "):
+        return "tty:" + ("timeout" if impl == "timeout" else "echoes%d" % min(0 if "echo=- " in impl else impl.split(" ")[0].count(",") + 1, 4))
     f = rq.split(" ")
     nkeys = 0 if len(f) < 3 or f[2] == "-" else f[2].count(",") + 1
     if impl.endswith("| panic"):
@@ -190,12 +192,16 @@ def c20_classify(rq, impl):
 
 
 def c20_nontrivial(rq, impl):
+    if rq.startswith("U20 "):
+        return impl.startswith("echo=")
     # at least one key, and some key changed what the editor shows
     views = impl.split(" | ")[0].split(" ")
     return len(set(views)) > 1 or "!" in impl
 
 
 def c20_group(d):
+    if d["request"].startswith("U20 "):
+        return "terminal-session"
     f = d["request"].split(" ")
     keys = [] if len(f) < 3 or f[2] == "-" else f[2].split(",")
     a = d["impl"].split(" ")
@@ -224,6 +230,8 @@ PROPS["C20"] = {
         "Lace.Editor.insertCharIndex_eq",
         "Lace.Editor.removeCharIndex_eq",
     ],
+    "also": ["C20T"],
+    "needs_bin": True,
     "compare": cmp_default,
     "classify": c20_classify,
     "nontrivial": c20_nontrivial,
